@@ -25,6 +25,7 @@ CONSTANTS
     ResetAnywhere, \* BOOLEAN: reset enabled in every phase (abandoned / failed / repeated episodes)
     ClockScope,  \* "process" (pinned code: the chain reads the process-wide contract clock) | "restored_on_entry"
     Fractional,  \* BOOLEAN: the action space trades fractions of a contract (TRUE) or whole lots only
+    Measure,     \* "weight": actions are target weights | "lots": actions are target numbers of contracts
     RuinStep     \* "raise" (pinned code) | "done" (the property)
 
 \* gnow is the process-wide contract clock (AbstractContract.now): every notification of ANY environment of the
@@ -141,7 +142,7 @@ StepF(tgt) ==
         \* the clock the chain is resolved with
         lclk == IF ClockScope = "process" THEN s1.gnow ELSE now1
         chainOk == "CH" \notin DOMAIN due \/ LeadOk(lclk)
-        req == [alloc |-> IF chainOk THEN Resolved(due, lclk) ELSE <<>>, measure |-> "weight", thr |-> Thr,
+        req == [alloc |-> IF chainOk THEN Resolved(due, lclk) ELSE <<>>, measure |-> Measure, thr |-> Thr,
                 fractional |-> Fractional, absolute |-> TRUE]
         r   == RebalanceF(s1.st, req, AccrualTime(now1))
         executed == r.out = "ok"
